@@ -366,7 +366,7 @@ def _site_in(sf):
     import sys
     f = sys._getframe(2)
     while f is not None:
-        if f.f_code.co_filename.startswith("/repo/"):
+        if f.f_code.co_filename.startswith(E.REPO + "/"):
             return f.f_code.co_name in sf
         f = f.f_back
     return False
